@@ -189,6 +189,9 @@ def render_body(f, ind, is_method_with_super=False):
     L.append(f"{j}        if not _op[4]:")
     L.append(f"{j}            _RUN.discard(_op[1]); raise")
     L.append(f"{j}    _RUN.discard(_op[1])")
+    if f["fid"] == 0:
+        L.append(f"{j}elif _k == 16:")
+        L.append(f"{j}    _op[1]()")
     if body == "coro":
         L.append(f"{j}elif _k == 13:")
         L.append(f"{j}    _R((\"A\", _c)); await _SUSP")
